@@ -58,15 +58,39 @@ func main() {
 		if tier == "thorough" && a["n"] == "" {
 			n = 600
 		}
+		for n := 0; n <= 400; n++ { // GetGroupK's float expression against the model's integer formula
+			nn := n
+			out.Do(fmt.Sprintf("groupk %d", nn), func() string { return fmt.Sprintf("k=%d", groupKReal(nn)) })
+		}
+		for _, sc := range boundaryScripts() {
+			r.runScript(sc)
+		}
 		for _, sc := range exhaustiveSmall() {
 			r.runScript(sc)
 		}
+		var ran []script
 		for i := 0; i < n; i++ {
-			r.runScript(genScript(rng.Fork(), i))
+			sc := genScript(rng.Fork(), i)
+			r.runScript(sc)
+			ran = append(ran, sc)
 			if i%3 == 0 {
-				r.runScript(genLife(rng.Fork(), i))
+				ls := genLife(rng.Fork(), i)
+				r.runScript(ls)
+				ran = append(ran, ls)
 			}
 		}
+		// history phase (classes 3 and 6): in the same process, after everything above,
+		// (a) primer/twin pairs on ONE block hash: every share of the primer round is replayed in the
+		//     twin round under other senders' ids; (b) a sample of the scripts above once more, verbatim:
+		//     same keys, same block hash, same bytes — whatever the process remembered must not matter
+		for _, sc := range twinScripts(rng.Fork(), 6) {
+			r.runScript(sc)
+		}
+		for i := 0; i < 12 && len(ran) > 0; i++ {
+			r.runScript(ran[rng.Intn(len(ran))])
+		}
+		st.RetentionChanged = r.recheckRetained()
+		st.Retained = len(r.retained)
 		r.finishDeferred(deferred)
 		st.Ops = out.N
 		st.Kinds = out.Kinds
@@ -76,8 +100,12 @@ func main() {
 		n := hx.ArgInt(a, "n", 40)
 		st := newStats()
 		r := &runner{st: st, search: true}
+		// deterministic small-scope families first, random scripts last; violations are printed
+		// (and flushed) the moment they are found, so a time-boxed run loses nothing
 		scripts := loadCorpus(os.Getenv("VERIF_CORPUS"))
 		scripts = append(scripts, leadScripts()...)
+		scripts = append(scripts, boundaryScripts()...)
+		scripts = append(scripts, exhaustiveSmall()...)
 		for i := 0; i < n; i++ {
 			scripts = append(scripts, genScript(rng.Fork(), i))
 			if i%3 == 0 {
@@ -90,13 +118,11 @@ func main() {
 		for _, sc := range scripts {
 			r.runScript(sc)
 		}
-		for _, v := range r.viols {
-			b, _ := json.Marshal(v)
-			fmt.Println("VIOL " + string(b))
-		}
 		st.Ops = r.evals
 		b, _ := json.Marshal(st)
 		fmt.Println("STATS " + string(b))
+	case "conc":
+		runConc(rng, hx.ArgInt(a, "n", 6), hx.ArgInt(a, "workers", 8))
 	default:
 		panic("unknown mode " + mode)
 	}
@@ -188,20 +214,22 @@ func kv(line string) map[string]string {
 // stats
 
 type stats struct {
-	Ops         int            `json:"ops"`
-	Scripts     int            `json:"scripts"`
-	Kinds       map[string]int `json:"op_kinds,omitempty"`
-	GroupSizes  map[string]int `json:"group_sizes"`
-	Wire        map[string]int `json:"wire"`
-	Effects     map[string]int `json:"effects"`
-	Endings     map[string]int `json:"endings"`
-	SigShapes   map[string]int `json:"sig_shapes"`
-	RandShapes  map[string]int `json:"rand_shapes"`
-	Filed       map[string]int `json:"filed"`
-	DataHash    map[string]int `json:"data_hash"`
-	IdEnc       map[string]int `json:"id_enc"`
-	ScriptLen   map[string]int `json:"script_len"`
-	DecodeDrops int            `json:"decode_drops"`
+	Ops              int            `json:"ops"`
+	Scripts          int            `json:"scripts"`
+	Kinds            map[string]int `json:"op_kinds,omitempty"`
+	GroupSizes       map[string]int `json:"group_sizes"`
+	Wire             map[string]int `json:"wire"`
+	Effects          map[string]int `json:"effects"`
+	Endings          map[string]int `json:"endings"`
+	SigShapes        map[string]int `json:"sig_shapes"`
+	RandShapes       map[string]int `json:"rand_shapes"`
+	Filed            map[string]int `json:"filed"`
+	DataHash         map[string]int `json:"data_hash"`
+	IdEnc            map[string]int `json:"id_enc"`
+	ScriptLen        map[string]int `json:"script_len"`
+	DecodeDrops      int            `json:"decode_drops"`
+	Retained         int            `json:"retained_rounds"`
+	RetentionChanged []string       `json:"retention_changed"`
 }
 
 func newStats() *stats {
